@@ -924,6 +924,152 @@ Proof.
   rewrite H, K11, K10, K9, K8, K7, K6, K5, K3, K2, K1, K0. reflexivity.
 Qed.
 
+(* ---------------------------------------------------------------- the cases without a walk, any source path *)
+Lemma rds_p_nodots h a s : forallb nodot (rds_p h a s) = true.
+Proof. destruct s; [reflexivity|]. unfold rds_p. apply rds_walk_nodots. Qed.
+
+(* a reference that keeps its scheme, whatever its path *)
+Lemma add_base_absolute_ref_target rel base : scheme rel <> None -> scheme base <> None ->
+  wf rel = true -> one_kind rel = true ->
+  fst (add_base false rel base) = URI_SUCCESS /\ same_target (snd (add_base false rel base)) rel.
+Proof.
+  intros Hr Hb Hw Hk. unfold add_base, add_base_impl.
+  destruct (scheme base) as [sb|]; [|congruence]. cbv zeta.
+  destruct (scheme rel) as [sr|] eqn:Esr; [|congruence]. cbn [is_some andb negb fst snd].
+  split; [reflexivity|].
+  unfold same_target. rewrite !canon10_nf.
+  rewrite rds_nf, fixamb_nf, fixtrail_nf. autorewrite with uri_db. usimpl.
+  rewrite (canon_path _ _ _ (wf_host_abs rel Hw) (rds_p_nodots _ _ _)).
+  destruct rel as [sc ui ht i4 i6 ifu po ps qu fr ab ow]. cbn [scheme] in Esr. subst sc.
+  unfold one_kind in Hk. usimpl. cbn [ip4 ip6 ipFuture] in Hk.
+  destruct i4, i6, ifu; try discriminate Hk; reflexivity.
+Qed.
+
+Theorem roundtrip_copy_target m src base : scheme src <> None -> scheme base <> None ->
+  range_eqb (scheme src) (scheme base) = false
+  \/ (equals_authority src base = false /\ is_host_set src = false /\ is_host_set base = true) ->
+  wf src = true -> one_kind src = true ->
+  let r := snd (remove_base m src base) in
+  fst (add_base false r base) = URI_SUCCESS /\ same_target (snd (add_base false r base)) src.
+Proof.
+  intros Hs Hb Hc Hw Hk. cbv zeta. rewrite (remove_base_nf m src base Hs Hb). cbn [snd].
+  assert (rb_body m src base = copy_path (copy_authority (set_scheme (scheme src) empty_uri) src) src) as E.
+  { unfold rb_body. destruct Hc as [Hc|(H1 & H2 & H3)].
+    - rewrite Hc. reflexivity.
+    - destruct (range_eqb (scheme src) (scheme base)); [|reflexivity]. cbn [negb].
+      rewrite H1, H2, H3. reflexivity. }
+  rewrite E, (copied_is_source src Hk).
+  destruct (add_base_absolute_ref_target (set_owner false src) base Hs Hb Hw Hk) as [A1 A2].
+  split; [exact A1|]. unfold same_target in *. rewrite A2.
+  apply canon10_components. reflexivity.
+Qed.
+
+Lemma add_base_network_ref_target rel base : scheme rel = None -> is_host_set rel = true -> scheme base <> None ->
+  one_kind rel = true ->
+  fst (add_base false rel base) = URI_SUCCESS
+  /\ same_target (snd (add_base false rel base)) (set_scheme (scheme base) rel).
+Proof.
+  intros Hr Hh Hb Hk. unfold add_base, add_base_impl.
+  destruct (scheme base) as [sb|]; [|congruence]. cbv zeta.
+  rewrite Hr. cbn [is_some andb fst snd]. rewrite Hh.
+  split; [reflexivity|].
+  unfold same_target. rewrite !canon10_nf.
+  rewrite rds_nf, fixtrail_nf. autorewrite with uri_db. usimpl.
+  rewrite Hh. cbn [fixtrail_p negb]. rewrite (rds_p_fixed _ _ _ (rds_p_nodots _ _ _)).
+  destruct rel as [sc ui ht i4 i6 ifu po ps qu fr ab ow].
+  unfold one_kind in Hk. usimpl. cbn [ip4 ip6 ipFuture] in Hk.
+  destruct i4, i6, ifu; try discriminate Hk; reflexivity.
+Qed.
+
+Theorem roundtrip_other_authority_target m src base : scheme src <> None -> scheme base <> None ->
+  range_eqb (scheme src) (scheme base) = true -> equals_authority src base = false ->
+  is_host_set src = true -> wf src = true -> one_kind src = true ->
+  let r := snd (remove_base m src base) in
+  fst (add_base false r base) = URI_SUCCESS /\ same_target (snd (add_base false r base)) src.
+Proof.
+  intros Hs Hb He Ea Hh Hw Hk. cbv zeta. rewrite (remove_base_nf m src base Hs Hb). cbn [snd].
+  unfold rb_body. rewrite He, Ea, Hh. cbn [negb andb]. rewrite (copied_noscheme src Hk).
+  destruct (add_base_network_ref_target (set_owner false (set_scheme None src)) base eq_refl Hh Hb Hk) as [A1 A2].
+  split; [exact A1|]. unfold same_target in *. rewrite A2.
+  apply canon10_components. rewrite <- (scheme_eq_of_range src base Hw He).
+  destruct src as [sc ui ht i4 i6 ifu po ps qu fr ab ow]. reflexivity.
+Qed.
+
+(* domain-root mode *)
+Lemma rds_p_guarded h a s : s <> [] -> rds_p h a ([46] :: s) = rds_p h a s.
+Proof.
+  intros Hne. destruct s as [|x l]; [congruence|]. unfold rds_p. rewrite walk_false_cons.
+  change (seg_dot [46]) with true. reflexivity.
+Qed.
+
+Lemma rds_p_fixamb h a h' a' s : rds_p h a (fixamb_p h' a' s) = rds_p h a s.
+Proof.
+  unfold fixamb_p. destruct a'; destruct s as [|[|c x] [|[|c2 y] l]]; try reflexivity;
+    try (apply rds_p_guarded; discriminate).
+  destruct h'; [reflexivity|apply rds_p_guarded; discriminate].
+Qed.
+
+Theorem roundtrip_domain_root_any src base : scheme src <> None -> scheme base <> None ->
+  range_eqb (scheme src) (scheme base) = true -> equals_authority src base = true ->
+  is_host_set src = is_host_set base -> (is_host_set src = false -> absolutePath src = true) ->
+  wf src = true ->
+  let r := snd (remove_base true src base) in
+  let back := snd (add_base false r base) in
+  fst (add_base false r base) = URI_SUCCESS
+  /\ scheme back = scheme src
+  /\ auth_fields back = auth_fields (copy_authority empty_uri base)
+  /\ pathSegs (canon10 back) = pathSegs (canon10 src)
+  /\ absolutePath back = absolutePath src
+  /\ query back = query src /\ fragment back = fragment src.
+Proof.
+  intros Hs Hb He Ea Hhost Hroot Hw. cbv zeta.
+  rewrite (remove_base_nf true src base Hs Hb). cbn [snd].
+  unfold rb_body. rewrite He, Ea. cbn [negb]. rewrite fixamb_nf. usimpl.
+  change (is_host_set (set_absolutePath true (copy_path empty_uri src))) with false.
+  set (P := fixamb_p false true (pathSegs src)).
+  set (r := set_fragment (fragment src) (set_query (query src) (set_pathSegs P (set_absolutePath true (copy_path empty_uri src))))).
+  assert (scheme r = None) as R1 by reflexivity.
+  assert (is_host_set r = false) as R2 by reflexivity.
+  assert (absolutePath r = true) as R3 by reflexivity.
+  split; [rewrite (add_base_abs_ref r base R1 R2 R3 Hb); reflexivity|].
+  destruct (back_fields_abs r base R1 R2 R3 Hb) as (B1 & B2 & B3 & B4 & B5 & B6).
+  split; [rewrite B1; symmetry; exact (scheme_eq_of_range src base Hw He)|].
+  split; [exact B2|].
+  change (pathSegs r) with P in B3.
+  assert (absolutePath src = negb (is_host_set src)) as Eabs.
+  { destruct (is_host_set src) eqn:Hh; [exact (wf_host_abs src Hw Hh)|exact (Hroot eq_refl)]. }
+  split.
+  { rewrite !canon10_nf. usimpl.
+    rewrite (host_of_auth_fields _ _ B2), host_copy_authority, B4, B3, <- Hhost, Eabs.
+    destruct (is_host_set src) eqn:Hh; cbn [negb].
+    - rewrite fixamb_host. cbn [fixtrail_p negb]. rewrite (rds_p_fixed _ _ _ (rds_p_nodots _ _ _)).
+      destruct P as [|p1 pr] eqn:EP.
+      + assert (pathSegs src = []) as Eps.
+        { subst P. destruct (pathSegs src) as [|[|c x] [|y l]]; try discriminate EP. reflexivity. }
+        rewrite Eps. reflexivity.
+      + rewrite <- EP. subst P. rewrite rds_p_fixamb. reflexivity.
+    - subst P. rewrite rds_p_fixamb.
+      apply canon_path; [discriminate|apply rds_p_nodots]. }
+  split; [rewrite B4, <- Hhost, Eabs; reflexivity|]. split; [rewrite B5|rewrite B6]; reflexivity.
+Qed.
+
+Theorem roundtrip_domain_root_any_target src base : scheme src <> None -> scheme base <> None ->
+  range_eqb (scheme src) (scheme base) = true -> equals_authority src base = true ->
+  is_host_set src = is_host_set base -> (is_host_set src = false -> absolutePath src = true) ->
+  wf src = true -> one_kind base = true -> auth_fields src = auth_fields base ->
+  same_target (snd (add_base false (snd (remove_base true src base)) base)) src.
+Proof.
+  intros Hs Hb He Ea Hhost Hroot Hw Hk Ha.
+  destruct (roundtrip_domain_root_any src base Hs Hb He Ea Hhost Hroot Hw) as (_ & B1 & B2 & B3 & B4 & B5 & B6).
+  unfold same_target. apply components_fields.
+  - rewrite !canon10_nf. exact B1.
+  - rewrite !canon10_nf. autorewrite with af_db. rewrite B2, Ha. apply auth_fields_copy. exact Hk.
+  - exact B3.
+  - rewrite !canon10_nf. exact B4.
+  - rewrite !canon10_nf. exact B5.
+  - rewrite !canon10_nf. exact B6.
+Qed.
+
 (* ---------------------------------------------------------------- 7. the unrestricted round trip is false *)
 (* S and B parse, are absolute, well formed and free of dot segments; creating the reference and resolving
    it both succeed; the result is not S, even after dot-segment normalization and with "" = "/" under an
